@@ -594,6 +594,16 @@ class Canon:
                 key = (o, a[1])
                 if key in rel and rel[key]:
                     return ('cmp', rel[key], b[2][0], b[1][1])
+        # T == (a, b)  is  T[0] == a and T[1] == b  (T a sequence of that length; with another length the code would index out of range in the
+        # component form): written over the components so that both spellings are one term.   (a, b) == (c, d) likewise.
+        if op == '==' and (l[0] == 'tuple') != (r[0] == 'tuple') or (op == '==' and l[0] == 'tuple' and r[0] == 'tuple' and len(l) == len(r)):
+            disp, other = (l, r) if l[0] == 'tuple' else (r, l)
+            if 2 <= len(disp) - 1 <= 4 and other[0] in ('cvar', 'name', 'lvar', 'sub', 'tuple', 'param', 'role'):
+                comps = []
+                for k, c in enumerate(disp[1:]):
+                    o_k = other[1 + k] if other[0] == 'tuple' else ('sub', other, ('num', k))
+                    comps.append(self._cmp('==', c, o_k))
+                return ('and', tuple(sorted(comps, key=_skey)))
         if op in ('==', '!=') and _skey(l) > _skey(r):
             l, r = r, l
         return ('cmp', op, l, r)
